@@ -65,7 +65,9 @@ def _reference_overrides():
     return out
 
 
-def check_resolution(prog, report):
+def check_resolution(prog, report, only=None):
+    """only: the modules the property's rules consulted (a rebinding in a
+    module the property does not depend on is not its violation)"""
     classes = {}      # class name -> (module rel, node)
     funcs = {}        # module rel -> set of top-level function names
     for rel, m in prog.modules.items():
@@ -78,6 +80,8 @@ def check_resolution(prog, report):
     ref_over = _reference_overrides()
     n = 0
     for rel, m in sorted(prog.modules.items()):
+        if only is not None and rel not in only:
+            continue
         mods_alias = {}   # local alias -> imported repo module
         for st in ast.walk(m.tree):
             if isinstance(st, ast.Import):
@@ -174,6 +178,38 @@ def check_resolution(prog, report):
                         'a module-level assignment replaces the function '
                         'of the same name',
                         construct='%s: rebinding %s' % (rel, t.id))
+            # attribute writes whose name is computed: the rules reason
+            # about attributes by name
+            dyn = None
+            if isinstance(st, ast.Call) and isinstance(
+                    st.func, ast.Name) and st.func.id == 'setattr' and len(
+                        st.args) >= 2 and not isinstance(st.args[1],
+                                                         ast.Constant):
+                dyn = 'setattr(%s, <computed name>, ...)' % text(
+                    st.args[0])[:30]
+            elif isinstance(st, ast.Call) and isinstance(
+                    st.func, ast.Attribute) and st.func.attr in (
+                        'update', 'setdefault', '__setitem__') and (
+                            (isinstance(st.func.value, ast.Attribute)
+                             and st.func.value.attr == '__dict__')
+                            or (isinstance(st.func.value, ast.Call)
+                                and text(st.func.value.func) == 'vars')):
+                dyn = text(st)[:50]
+            elif isinstance(st, ast.Subscript) and isinstance(
+                    st.ctx, (ast.Store, ast.Del)) and (
+                        (isinstance(st.value, ast.Attribute)
+                         and st.value.attr == '__dict__')
+                        or (isinstance(st.value, ast.Call)
+                            and text(st.value.func) == 'vars')):
+                dyn = text(st)[:50]
+            if dyn is not None:
+                report.violation(
+                    'R-resolve', 'dynamic attribute write %s' % dyn,
+                    '%s:%d' % (rel, st.lineno),
+                    'an attribute whose name is computed at run time is '
+                    'written: which state changes is invisible to every '
+                    'rule that reasons about attributes by name',
+                    construct='%s: dynamic attribute write' % rel)
             if isinstance(st, ast.Call) and isinstance(
                     st.func, ast.Name) and st.func.id == 'setattr' and \
                     st.args and isinstance(st.args[0], ast.Name) and (
@@ -244,4 +280,4 @@ def check_resolution(prog, report):
               'all modules', '%d function definitions in %d modules: no '
               'duplicate definition, no rebinding of a function or method, '
               'no wrapping decorator, no attribute hook, no new override' %
-              (n, len(prog.modules)))
+              (n, len(prog.modules) if only is None else len(only)))
